@@ -454,7 +454,7 @@ def tie(ctx):
             violations.append({"why": f"profile written by the profile command with {toks} and loaded again carries {bad[0]}={loaded[bad[0]][1]!r} instead of {mv[bad[0]][1]!r}", "input": inp, "signature": "c18:roundtrip"})
         stats["cli_roundtrips"] += 1
     return {"families": fam, "violations": violations, "evaluations": len(cases) + len(cli), "distinct_nontrivial": len(distinct),
-            "rule": "every parameter x every documented spelling class (booleans: true/false any case, 1/0, native; numbers: decimal literals with sign/underscore/exponent; malformed; None) + unknown names + random multi-parameter updates, through Profile.update and through `aldy profile --param` -> YAML -> Profile.load; distinct by hash",
+            "rule": "every parameter x every documented spelling class (booleans: true/false any case, 1/0, native; numbers: decimal literals with sign/underscore/exponent; malformed; None) + unknown names + random multi-parameter updates, through Profile.update, through Profile.load(gene, file with an options section, **explicit parameters) and through `aldy profile --param` -> YAML -> Profile.load; distinct by hash",
             "samples": samples, "stats": dict(stats)}
 
 
